@@ -59,11 +59,14 @@ example : httpCursor [[1], [], [2, 3], []] = [2, 3] := by decide
 example : partition [10, 11, 12, 13, 14] 2 = [[10, 12, 14], [11, 13]] := by decide
 example : embeddedAssign 5 3 = [[0, 3], [1, 4], [2]] := by decide
 
-/-- **The cut.** For every history of split assignments, reads and checkpoint barriers of the runner loop, every
-checkpoint report `rep` sits at the position of its barrier on the output stream and, for every split `r` it reports:
-the reported position `r.cur` is the assigned position plus the number of the split's records ahead of the barrier,
-every record ahead of the barrier lies before the position and every record behind it at or after the position. -/
-theorem cursor_matches_cut (as : List RAct) :
+/-- **The cut.** For every history of split assignments, reads and checkpoint barriers of the runner loop in one
+deployment of a runner (a redeployment of a live runner is outside: D39, recorded under C01), in which no split is
+assigned to the reader twice (guaranteed by the splitters: `one_reader`, `partition_disjoint`, and a fresh reader per
+deployment): every checkpoint report `rep` sits at the position of its barrier on the output stream and, for every
+split `r` it reports: the reported position `r.cur` is the assigned position plus the number of the split's records
+ahead of the barrier, every record ahead of the barrier lies before the position and every record behind it at or
+after the position. -/
+theorem cursor_matches_cut (as : List RAct) (hd : (assignedIds as).Nodup) :
     let st := rrun {} as
     ∀ rep ∈ st.reports,
       st.out[rep.pos]? = some (Ev.barrier rep.id) ∧
@@ -72,7 +75,7 @@ theorem cursor_matches_cut (as : List RAct) :
         (∀ i ∈ recIdx r.split (st.out.take rep.pos), i < r.cur) ∧
         (∀ i ∈ recIdx r.split (st.out.drop rep.pos), r.cur ≤ i) := by
   intro st rep hrep
-  exact ((RInv.run as {} RInv.init).reps rep hrep).2.1
+  exact ((RInv.run as {} RInv.init (by simpa using hd)).reps rep hrep).2.1
 
 example :
     let st := rrun {} [.assign [(0, 0), (1, 5)], .read [0, 1, 0], .barrier 1, .read [1, 1], .barrier 2]
@@ -84,7 +87,7 @@ example :
 shards, shard assignments, `ReadEvents` calls of the round-robin Kinesis reader under `ReadSourceChannel` and the
 runner loop — any of which may fail with a retryable `GetRecords` error — and checkpoint barriers: the positions
 reported at a barrier cover exactly the records emitted before it. -/
-theorem cursor_matches_cut_kinesis (as : List KAct) :
+theorem cursor_matches_cut_kinesis (as : List KAct) (hd : (kAssignedIds as).Nodup) :
     let st := (krun {} as).r
     ∀ rep ∈ st.reports,
       st.out[rep.pos]? = some (Ev.barrier rep.id) ∧
@@ -93,12 +96,18 @@ theorem cursor_matches_cut_kinesis (as : List KAct) :
         (∀ i ∈ recIdx r.split (st.out.take rep.pos), i < r.cur) ∧
         (∀ i ∈ recIdx r.split (st.out.drop rep.pos), r.cur ≤ i) := by
   intro st rep hrep
-  obtain ⟨ras, h⟩ := krun_is_rrun as {}
-  have := cursor_matches_cut ras
+  obtain ⟨ras, h, e⟩ := krun_is_rrun as {}
+  have := cursor_matches_cut ras (e ▸ hd)
   simp only at this
   have hst : st = rrun {} ras := h
   rw [hst] at hrep ⊢
   exact this rep hrep
+
+/-- the hypothesis of `cursor_matches_cut` is necessary for readers that append: a split assigned twice is read
+twice from the same position (what `one_reader` rules out) -/
+example :
+    (rrun {} [.assign [(0, 0)], .assign [(0, 0)], .read [0]]).splits.map (fun x => (x.split, x.cur)) = [(0, 1), (0, 1)] := by
+  decide
 
 /-- a read whose `GetRecords` fails moves no position and emits nothing (what the cut relies on) -/
 theorem failed_read_moves_nothing (k : KRd) (sp : RSplit) (hs : k.r.splits[k.idx]? = some sp) (hf : k.failIn = 1) :
@@ -138,49 +147,49 @@ splits / merges of the stream. `keep = false` is the code as it is (after the re
 ideal splitter whose checkpoint also contains the withheld shards. `s.log` lists the shards handed out since the
 last (re)start; by `log_records_calls` it is exactly the content of the `AssignSplits` calls. -/
 
-theorem log_records_calls (keep : Bool) (s : Sp) (a : Act) :
-    (step keep s a).1.log = (match a with | .start => [] | _ => s.log) ++ callIds (step keep s a).2 :=
-  step_log keep s a
+theorem log_records_calls (keep readd : Bool) (s : Sp) (a : Act) :
+    (step keep readd s a).1.log = (match a with | .start => [] | _ => s.log) ++ callIds (step keep readd s a).2 :=
+  step_log keep readd s a
 
 /-- **One reader.** Between two (re)starts no shard is handed out twice (each `AssignSplits` call names one runner
 per shard, `uidx_lt`), for every history, also across restores. -/
-theorem one_reader (keep : Bool) (shards runners : Nat) (as : List Act) :
-    (run keep (initSp shards runners) as).log.Nodup :=
-  (Inv.run keep as _ (Inv.init shards runners)).L1
+theorem one_reader (keep readd : Bool) (shards runners : Nat) (as : List Act) :
+    (run keep readd (initSp shards runners) as).log.Nodup :=
+  (Inv.run keep readd as _ (Inv.init shards runners)).L1
 
 /-- a shard that is currently assigned has no parent that the tracker still knows (tracker-level form) -/
-theorem assigned_has_no_known_parent (keep : Bool) (shards runners : Nat) (as : List Act) :
-    let s := run keep (initSp shards runners) as
+theorem assigned_has_no_known_parent (keep readd : Bool) (shards runners : Nat) (as : List Act) :
+    let s := run keep readd (initSp shards runners) as
     ∀ sh ∈ s.tr.known, sh.id ∈ s.tr.assigned → ∀ p ∈ sh.parents, knownId s.tr.known p = false :=
-  (Inv.run keep as _ (Inv.init shards runners)).W
+  (Inv.run keep readd as _ (Inv.init shards runners)).W
 
 /-- **Children withheld** (ideal splitter): whenever a shard has been handed out, a finish notification for each of
 its parents had been processed before — for every split/merge history and every checkpoint/restore placement. -/
-theorem children_withheld (shards runners : Nat) (as : List Act) :
-    let s := run true (initSp shards runners) as
+theorem children_withheld (readd : Bool) (shards runners : Nat) (as : List Act) :
+    let s := run true readd (initSp shards runners) as
     ∀ i ∈ s.log, ∀ sh : Shard, s.stream[i]? = some sh → ∀ p ∈ sh.parents, p ∈ s.done :=
-  (Inv.run true as _ (Inv.init shards runners)).D
-    (Clean.run as _ ⟨rfl, fun c hc => by simp [initSp] at hc⟩).t
+  (Inv.run true readd as _ (Inv.init shards runners)).D
+    (Clean.run readd as _ ⟨rfl, fun c hc => by simp [initSp] at hc⟩).t
 
 /-- **Children withheld, the code as it is** (partial, D16c open). Full statement: as `children_withheld` with
 `run false`. Proved under the exact excluded condition `tainted = false`: no restore so far used a checkpoint that
 was taken while a withheld (known, unassigned) shard had an id below `LastAssignedShardId`
 (`Ckpt.good = false`), nor one taken after such a restore. -/
-theorem children_withheld_partial (shards runners : Nat) (as : List Act) :
-    let s := run false (initSp shards runners) as
+theorem children_withheld_partial (readd : Bool) (shards runners : Nat) (as : List Act) :
+    let s := run false readd (initSp shards runners) as
     s.tainted = false →
     ∀ i ∈ s.log, ∀ sh : Shard, s.stream[i]? = some sh → ∀ p ∈ sh.parents, p ∈ s.done :=
-  (Inv.run false as _ (Inv.init shards runners)).D
+  (Inv.run false readd as _ (Inv.init shards runners)).D
 
 /-- the excluded condition is exactly how `tainted` arises -/
-theorem tainted_only_by_bad_restore (s : Sp) (a : Act) (h : s.tainted = false)
-    (h' : (step false s a).1.tainted = true) :
+theorem tainted_only_by_bad_restore (readd : Bool) (s : Sp) (a : Act) (h : s.tainted = false)
+    (h' : (step false readd s a).1.tainted = true) :
     a = .start ∧ ∃ c, s.ck = some c ∧ (c.good = false ∨ c.clean = false) := by
   cases a with
   | start =>
     refine ⟨rfl, ?_⟩
-    have e : (step false s .start).1.tainted = (load false s).tainted :=
-      (assignAvail_tainted (discover (load false s))).1
+    have e : (step false readd s .start).1.tainted = (load false readd s).tainted :=
+      (assignAvail_tainted (discover (load false readd s))).1
     rw [e] at h'
     unfold load at h'
     cases hck : s.ck with
@@ -192,8 +201,8 @@ theorem tainted_only_by_bad_restore (s : Sp) (a : Act) (h : s.tainted = false)
       rcases h' with h' | h'
       · exact Or.inr h'
       · exact Or.inl h'
-  | tick => rw [show (step false s .tick).1.tainted = s.tainted from (assignAvail_tainted (discover s)).1, h] at h'; exact Bool.noConfusion h'
-  | finish ids => rw [show (step false s (.finish ids)).1.tainted = s.tainted from (assignAvail_tainted (remove s ids)).1, h] at h'; exact Bool.noConfusion h'
+  | tick => rw [show (step false readd s .tick).1.tainted = s.tainted from (assignAvail_tainted (discover s)).1, h] at h'; exact Bool.noConfusion h'
+  | finish ids => rw [show (step false readd s (.finish ids)).1.tainted = s.tainted from (assignAvail_tainted (remove s ids)).1, h] at h'; exact Bool.noConfusion h'
   | ckpt st => simp [step, checkpoint, h] at h'
   | split i a =>
     simp only [step, envSplit] at h'
@@ -212,83 +221,118 @@ theorem tainted_only_by_bad_restore (s : Sp) (a : Act) (h : s.tainted = false)
       | none => rw [hi, hj] at h'; simp [h] at h'
       | some b => rw [hi, hj] at h'; simp [h] at h'
 
-/-- **Restore resumes.** A splitter restarted from a checkpoint hands out every shard that was assigned at the
-checkpoint, with the cursor the runners reported for it, in its first `AssignSplits` call; nothing is handed out
-twice (`one_reader`: the log, which by `log_records_calls` is the content of that call, has no duplicates). -/
-theorem restore_resumes (keep : Bool) (shards runners : Nat) (as : List Act) (c : Ckpt) :
-    let s := run keep (initSp shards runners) as
+/-- **Restore resumes** (shards still assigned when the splitter's part of the checkpoint was taken). A splitter
+restarted from a checkpoint hands out every such shard, with the cursor the runners reported for it, in its first
+`AssignSplits` call — unless (ideal splitter only, `readd`) a parent of it is resumed first because its reported
+position had been dropped from the tracker (D52); nothing is handed out twice. -/
+theorem restore_resumes (keep readd : Bool) (shards runners : Nat) (as : List Act) (c : Ckpt) :
+    let s := run keep readd (initSp shards runners) as
     s.ck = some c →
     (∀ sh ∈ c.tr.known, sh.id ∈ c.tr.assigned →
-      ∃ call ∈ (restart keep s).2, (uidx sh.lo sh.hi s.runners, sh.id, cursorOf c.states sh.id) ∈ call) ∧
-    (restart keep s).1.log = callIds (restart keep s).2 ∧ (restart keep s).1.log.Nodup := by
+      (∃ call ∈ (restart keep readd s).2, (uidx sh.lo sh.hi s.runners, sh.id, cursorOf c.states sh.id) ∈ call) ∨
+      (readd = true ∧ ∃ p ∈ sh.parents, p ∈ (readdList s.stream c).map (·.id))) ∧
+    (restart keep readd s).1.log = callIds (restart keep readd s).2 ∧ (restart keep readd s).1.log.Nodup := by
   intro s hck
-  have hI : Inv s := Inv.run keep as _ (Inv.init shards runners)
-  refine ⟨fun sh hs ha => restart_assigns keep s hI c hck sh hs ha, ?_, (Inv.restart keep s hI).L1⟩
-  have := step_log keep s .start
+  have hI : Inv s := Inv.run keep readd as _ (Inv.init shards runners)
+  refine ⟨fun sh hs ha => restart_assigns keep readd s hI c hck sh hs ha, ?_, (Inv.restart keep readd s hI).L1⟩
+  have := step_log keep readd s .start
   simpa [step] using this
+
+/-- **Every reported position is resumed** (a splitter that re-adds shards which have a reported position but were no
+longer assigned when its part of the checkpoint was taken: `readd = true`, the behaviour of `fixes/D52.diff`; with or
+without persisting withheld shards). For every history: a restart hands out every shard of the stream for which the
+checkpoint holds a position, with that position, or the shard waits for a tracked parent. -/
+theorem reported_positions_resumed (keep : Bool) (shards runners : Nat) (as : List Act) (c : Ckpt) :
+    let s := run keep true (initSp shards runners) as
+    s.ck = some c →
+    ∀ (i : Nat) (sh : Shard), s.stream[i]? = some sh → i ∈ c.states.map (·.1) →
+      (∃ call ∈ (restart keep true s).2, (uidx sh.lo sh.hi s.runners, i, cursorOf c.states i) ∈ call) ∨
+      ∃ p ∈ sh.parents, knownId (discover (load keep true s)).tr.known p = true := by
+  intro s hck i sh hsh hst
+  exact reported_resumed keep true s (Inv.run keep true as _ (Inv.init shards runners)) c hck i sh hsh hst
+    (fun _ _ => rfl)
+
+/-- **Every reported position is resumed, the code as it is** (partial; D52 open). Full statement: as
+`reported_positions_resumed` with `run false false`. Proved for positions of shards that, when the splitter's part of
+the checkpoint was taken (`Store.finishSnapshot`, after the last acknowledgement), were still tracked and assigned, or
+not yet passed by discovery. Excluded: a shard that finished between its runner's barrier and that moment (D52: it is
+in no list of the checkpoint any more). -/
+theorem reported_positions_resumed_partial (shards runners : Nat) (as : List Act) (c : Ckpt) :
+    let s := run false false (initSp shards runners) as
+    s.ck = some c →
+    ∀ (i : Nat) (sh : Shard), s.stream[i]? = some sh → i ∈ c.states.map (·.1) →
+      ((knownId c.tr.known i = true ∧ i ∈ c.tr.assigned) ∨ c.tr.next ≤ i) →
+      (∃ call ∈ (restart false false s).2, (uidx sh.lo sh.hi s.runners, i, cursorOf c.states i) ∈ call) ∨
+      ∃ p ∈ sh.parents, knownId (discover (load false false s)).tr.known p = true := by
+  intro s hck i sh hsh hst hx
+  apply reported_resumed false false s (Inv.run false false as _ (Inv.init shards runners)) c hck i sh hsh hst
+  intro hA hlt
+  rcases hx with ⟨a, b⟩ | b
+  · exact absurd ⟨a, Or.inl b⟩ hA
+  · omega
 
 /-- after every step that ends with an assignment round nothing assignable is left: every tracked shard is assigned
 or has a tracked parent -/
-theorem assignment_round_leaves_nothing_available (keep : Bool) (s : Sp) (a : Act)
-    (ha : a = .start ∨ a = .tick ∨ ∃ ids, a = .finish ids) : available (step keep s a).1.tr = [] := by
+theorem assignment_round_leaves_nothing_available (keep readd : Bool) (s : Sp) (a : Act)
+    (ha : a = .start ∨ a = .tick ∨ ∃ ids, a = .finish ids) : available (step keep readd s a).1.tr = [] := by
   rcases ha with rfl | rfl | ⟨ids, rfl⟩ <;> exact available_after_assign _
 
 /-- **No shard is left behind** (the code as it is; partial, D16c open). After a (re)start or a discovery tick —
 both end with an assignment round — every shard of the stream is finished, has been handed out, or waits for a parent
 the tracker still tracks. Full statement: without the hypothesis. Excluded condition as in
 `children_withheld_partial`: the state after the step is untainted. -/
-theorem none_left_behind_partial (keep : Bool) (shards runners : Nat) (as : List Act) (a : Act)
+theorem none_left_behind_partial (keep readd : Bool) (shards runners : Nat) (as : List Act) (a : Act)
     (ha : a = .start ∨ a = .tick) :
-    let s' := (step keep (run keep (initSp shards runners) as) a).1
+    let s' := (step keep readd (run keep readd (initSp shards runners) as) a).1
     s'.tainted = false →
     ∀ (i : Nat) (sh : Shard), s'.stream[i]? = some sh →
       i ∈ s'.done ∨ i ∈ s'.log ∨ ∃ p ∈ sh.parents, knownId s'.tr.known p = true := by
   intro s' ht
-  have hI : Inv (run keep (initSp shards runners) as) := Inv.run keep as _ (Inv.init shards runners)
+  have hI : Inv (run keep readd (initSp shards runners) as) := Inv.run keep readd as _ (Inv.init shards runners)
   rcases ha with rfl | rfl
-  · have ht' : (load keep (run keep (initSp shards runners) as)).tainted = false := by
-      have := (assignAvail_tainted (discover (load keep (run keep (initSp shards runners) as)))).1
+  · have ht' : (load keep readd (run keep readd (initSp shards runners) as)).tainted = false := by
+      have := (assignAvail_tainted (discover (load keep readd (run keep readd (initSp shards runners) as)))).1
       rw [← ht]; exact this.symm
-    exact round_complete _ (Inv.load keep _ hI) ht'
-  · have ht' : (run keep (initSp shards runners) as).tainted = false := by
-      have := (assignAvail_tainted (discover (run keep (initSp shards runners) as))).1
+    exact round_complete _ (Inv.load keep readd _ hI) ht'
+  · have ht' : (run keep readd (initSp shards runners) as).tainted = false := by
+      have := (assignAvail_tainted (discover (run keep readd (initSp shards runners) as))).1
       rw [← ht]; exact this.symm
     exact round_complete _ hI ht'
 
 /-- **No shard is left behind** (ideal splitter): unconditional. -/
-theorem none_left_behind (shards runners : Nat) (as : List Act) (a : Act) (ha : a = .start ∨ a = .tick) :
-    let s' := (step true (run true (initSp shards runners) as) a).1
+theorem none_left_behind (readd : Bool) (shards runners : Nat) (as : List Act) (a : Act) (ha : a = .start ∨ a = .tick) :
+    let s' := (step true readd (run true readd (initSp shards runners) as) a).1
     ∀ (i : Nat) (sh : Shard), s'.stream[i]? = some sh →
       i ∈ s'.done ∨ i ∈ s'.log ∨ ∃ p ∈ sh.parents, knownId s'.tr.known p = true := by
   intro s'
-  have hc : Clean (run true (initSp shards runners) as) := Clean.run as _ ⟨rfl, fun c hc => by simp [initSp] at hc⟩
-  exact none_left_behind_partial true shards runners as a ha (Clean.step _ hc a).t
+  have hc : Clean (run true readd (initSp shards runners) as) := Clean.run readd as _ ⟨rfl, fun c hc => by simp [initSp] at hc⟩
+  exact none_left_behind_partial true readd shards runners as a ha (Clean.step readd _ hc a).t
 
 /-- **Every assignable shard is assigned** (partial for the code as it is, D16c open; unconditional on taint for the
 ideal splitter by `Clean`). As long as finish notifications only name shards that were assigned (`wild = false`: what
 readers do), after a (re)start or a discovery tick every shard of the stream whose parents are all finished, and which
 is not finished itself, has been handed out. -/
-theorem assignable_is_assigned_partial (keep : Bool) (shards runners : Nat) (as : List Act) (a : Act)
+theorem assignable_is_assigned_partial (keep readd : Bool) (shards runners : Nat) (as : List Act) (a : Act)
     (ha : a = .start ∨ a = .tick) :
-    let s' := (step keep (run keep (initSp shards runners) as) a).1
+    let s' := (step keep readd (run keep readd (initSp shards runners) as) a).1
     s'.tainted = false → s'.wild = false →
     ∀ (i : Nat) (sh : Shard), s'.stream[i]? = some sh → (∀ p ∈ sh.parents, p ∈ s'.done) → i ∉ s'.done → i ∈ s'.log := by
   intro s' ht hw i sh hi hpar hnd
-  have hI : Inv (run keep (initSp shards runners) as) := Inv.run keep as _ (Inv.init shards runners)
-  have hT : Tame s' := Tame.step keep _ hI (Tame.run keep as _ (Inv.init shards runners) (Tame.init shards runners)) a
-  rcases none_left_behind_partial keep shards runners as a ha ht i sh hi with h1 | h1 | ⟨p, hp, hk⟩
+  have hI : Inv (run keep readd (initSp shards runners) as) := Inv.run keep readd as _ (Inv.init shards runners)
+  have hT : Tame s' := Tame.step keep readd _ hI (Tame.run keep readd as _ (Inv.init shards runners) (Tame.init shards runners)) a
+  rcases none_left_behind_partial keep readd shards runners as a ha ht i sh hi with h1 | h1 | ⟨p, hp, hk⟩
   · exact absurd h1 hnd
   · exact h1
   · obtain ⟨t, hts, e⟩ := (knownId_iff _ _).mp hk
     exact absurd (e ▸ hpar p hp) (hT.X hw t hts)
 
-theorem assignable_is_assigned (shards runners : Nat) (as : List Act) (a : Act) (ha : a = .start ∨ a = .tick) :
-    let s' := (step true (run true (initSp shards runners) as) a).1
+theorem assignable_is_assigned (readd : Bool) (shards runners : Nat) (as : List Act) (a : Act) (ha : a = .start ∨ a = .tick) :
+    let s' := (step true readd (run true readd (initSp shards runners) as) a).1
     s'.wild = false →
     ∀ (i : Nat) (sh : Shard), s'.stream[i]? = some sh → (∀ p ∈ sh.parents, p ∈ s'.done) → i ∉ s'.done → i ∈ s'.log := by
   intro s'
-  have hc : Clean (run true (initSp shards runners) as) := Clean.run as _ ⟨rfl, fun c hc => by simp [initSp] at hc⟩
-  exact assignable_is_assigned_partial true shards runners as a ha (Clean.step _ hc a).t
+  have hc : Clean (run true readd (initSp shards runners) as) := Clean.run readd as _ ⟨rfl, fun c hc => by simp [initSp] at hc⟩
+  exact assignable_is_assigned_partial true readd shards runners as a ha (Clean.step readd _ hc a).t
 
 /-- **Recovery resumes the sources from the cut the operators restore.** For every history of completed checkpoints
 (snapshot write finished at once or still in flight), late publications and (re)deployments — including a publication
@@ -309,22 +353,38 @@ example : (jrun {} [.start false, .ckpt 10 false, .ckpt 20 true, .start true, .s
 def witness : List Act :=
   [.start, .split 0 100, .split 1 (2 ^ 127 + 5), .tick, .finish [1], .ckpt [(0, 7), (4, 9)], .split 2 50, .start]
 
-example : (run true (initSp 2 2) witness).log = [0, 4, 5] := by decide
-example : ((run true (initSp 2 2) witness).ck.map fun c => (c.tr.assigned, c.tr.next, c.good)) = some ([5, 4, 0], 6, false) := by
+example : (run true true (initSp 2 2) witness).log = [0, 4, 5] := by decide
+example : ((run true true (initSp 2 2) witness).ck.map fun c => (c.tr.assigned, c.tr.next, c.good)) = some ([5, 4, 0], 6, false) := by
   decide
-example : (restart true (run true (initSp 2 2) (witness.take 7))).2 = [[(0, 0, 7), (1, 4, 9), (1, 5, 0)]] := by decide
-example : (restart false (run false (initSp 2 2) (witness.take 7))).2 =
+example : (restart true true (run true true (initSp 2 2) (witness.take 7))).2 = [[(0, 0, 7), (1, 4, 9), (1, 5, 0)]] := by decide
+example : (restart false false (run false false (initSp 2 2) (witness.take 7))).2 =
     [[(0, 7, 0), (0, 6, 0), (0, 0, 7), (1, 4, 9), (1, 5, 0)]] := by decide
 
 /-- D16c on the model of the code as it is: after the restore the grandchildren 6,7 of the unfinished shard 0 are
 handed out although their parent 2 was never read (and 2,3 are lost) -/
 theorem children_withheld_counterexample :
-    let s := run false (initSp 2 2) witness
+    let s := run false false (initSp 2 2) witness
     s.tainted = true ∧ 6 ∈ s.log ∧ s.stream[6]?.map (·.parents) = some [2] ∧ 2 ∉ s.done := by decide
+
+/-- D52 on the model of the code as it is (the auditor's witness): shard 0 is split, its children are discovered;
+the runner reports position 5 of shard 0 at the barrier, shard 0 finishes before the splitter's part of the checkpoint
+is taken; the restart hands out only the children — shard 0, which the operators' state covers up to position 5 only,
+is never read again -/
+def witnessD52 : List Act := [.start, .split 0 100, .tick, .finish [0], .ckpt [(0, 5)]]
+
+theorem reported_positions_resumed_counterexample :
+    let s := run false false (initSp 1 1) witnessD52
+    (s.ck.map fun c => (c.states, c.tr.assigned, c.tr.next)) = some ([(0, 5)], [2, 1], 3) ∧
+    (restart false false s).2 = [[(0, 1, 0), (0, 2, 0)]] ∧ (restart false false s).1.dropped = true ∧
+    (restart false false s).1.tainted = false := by decide
+
+/-- the ideal splitter resumes shard 0 from position 5 and withholds the children -/
+example : (restart true true (run true true (initSp 1 1) witnessD52)).2 = [[(0, 0, 5)]] := by decide
+example : (restart false true (run false true (initSp 1 1) witnessD52)).2 = [[(0, 0, 5)]] := by decide
 
 /-- ... and after shard 0 finishes and a discovery tick its children 2,3 are still not handed out -/
 theorem assignable_is_assigned_counterexample :
-    let s := run false (initSp 2 2) (witness ++ [.finish [0], .tick])
+    let s := run false false (initSp 2 2) (witness ++ [.finish [0], .tick])
     s.wild = false ∧ s.stream[2]?.map (·.parents) = some [0] ∧ 0 ∈ s.done ∧ 2 ∉ s.done ∧ 2 ∉ s.log := by decide
 
 end Rxn.C16
